@@ -41,6 +41,13 @@ func (n *Node) err(op, p string) error {
 type memFS struct {
 	root     *Node
 	patFiles [][]string
+	hits     *int // number of injected faults that were actually triggered
+}
+
+func (m *memFS) hit() {
+	if m.hits != nil {
+		*m.hits++
+	}
 }
 
 func (m *memFS) find(op, name string) (*Node, error) {
@@ -102,12 +109,13 @@ func (m *memFS) Open(name string) (fs.File, error) {
 		return nil, err
 	}
 	if n.FOpen {
+		m.hit()
 		return nil, n.err("open", name)
 	}
 	if n.isDir() {
-		return &dirFile{n: n, path: name}, nil
+		return &dirFile{n: n, path: name, fs: m}, nil
 	}
-	return &memFile{n: n, path: name, data: m.content(n)}, nil
+	return &memFile{n: n, path: name, data: m.content(n), fs: m}, nil
 }
 
 func (m *memFS) Stat(name string) (fs.FileInfo, error) {
@@ -116,6 +124,7 @@ func (m *memFS) Stat(name string) (fs.FileInfo, error) {
 		return nil, err
 	}
 	if n.FStat {
+		m.hit()
 		return nil, n.err("stat", name)
 	}
 	return info{n}, nil
@@ -137,6 +146,7 @@ func (m *memFS) ReadDir(name string) ([]fs.DirEntry, error) {
 }
 
 type memFile struct {
+	fs   *memFS
 	n    *Node
 	path string
 	data []byte
@@ -145,6 +155,7 @@ type memFile struct {
 
 func (f *memFile) Stat() (fs.FileInfo, error) {
 	if f.n.FFstat {
+		f.fs.hit()
 		return nil, f.n.err("stat", f.path)
 	}
 	return info{f.n}, nil
@@ -161,6 +172,7 @@ func (f *memFile) Close() error { return nil }
 
 // dirFile implements fs.ReadDirFile with the ReadDir(1) protocol walkDirUnsorted uses.
 type dirFile struct {
+	fs    *memFS
 	n     *Node
 	path  string
 	pos   int
@@ -176,6 +188,7 @@ func (d *dirFile) ReadDir(k int) ([]fs.DirEntry, error) {
 	call := d.calls
 	d.calls++
 	if d.n.ReadAt != nil && *d.n.ReadAt == call {
+		d.fs.hit()
 		return nil, d.n.err("readdir", d.path)
 	}
 	if k <= 0 {
